@@ -135,16 +135,42 @@ class SymTable(dict):
     sx_name = 'table'
     sx_small = 16
 
-    def _member(self, k):
-        c = getattr(self, '_sx_member_cache', None)
+    def _keys(self):
+        c = getattr(self, '_sx_keys_cache', None)
         if c is None or c[0] != len(self):
-            keys = sorted(kk for kk in dict.keys(self) if isinstance(kk, int))
-            c = (len(self), keys)
-            self._sx_member_cache = c
-        keys = c[1]
+            keys = sorted(kk for kk in dict.keys(self) if isinstance(kk, int) and not isinstance(kk, bool))
+            runs = []
+            for v in keys:
+                if runs and runs[-1][1] == v - 1:
+                    runs[-1][1] = v
+                else:
+                    runs.append([v, v])
+            c = (len(self), keys, runs)
+            self._sx_keys_cache = c
+            self._sx_member_terms = {}
+        return c
+
+    def _member(self, k):
+        _, keys, runs = self._keys()
         if not keys:
             return False
-        return mkb(z3.Or(*[k.e == kk for kk in keys]) if len(keys) > 1 else k.e == keys[0])
+        cache = self._sx_member_terms
+        i = k.e.get_id()
+        hit = cache.get(i)
+        if hit is not None and hit[0].eq(k.e):
+            return SymBool(hit[1]) if hit[1] is not True and hit[1] is not False else hit[1]
+        parts = []
+        for lo, hi in runs:           # membership as a union of intervals (same set, smaller term)
+            if lo == hi:
+                parts.append(k.e == lo)
+            else:
+                parts.append(z3.And(k.e >= lo, k.e <= hi))
+        t = z3.simplify(z3.Or(*parts) if len(parts) > 1 else parts[0])
+        r = True if z3.is_true(t) else False if z3.is_false(t) else t
+        if len(cache) > 4096:
+            cache.clear()
+        cache[i] = (k.e, r)
+        return SymBool(r) if r is not True and r is not False else r
 
     def __contains__(self, k):
         if isinstance(k, SymInt):
@@ -155,7 +181,7 @@ class SymTable(dict):
         if isinstance(k, SymInt):
             if not bool(self._member(k)):
                 raise KeyError(k)
-            keys = self._sx_member_cache[1]
+            keys = self._keys()[1]
             if len(keys) <= self.sx_small:
                 i = eng().choose([k.e == kk for kk in keys])
                 return dict.__getitem__(self, keys[i])
